@@ -301,8 +301,18 @@ def decode_past_end_cases():
         n = 3
         c = hc.Contract(b"\x60\x01\x00")
         pc = SymInt(z3.Int("pc"))
-        which = ctx.choose(2, "range")
-        if which == 0:
+        which = ctx.choose(2 + n, "range")
+        if which >= 2:
+            # -len <= pc < 0: python lists take these as indices from the end, the EVM has no such pc
+            k = -(which - 1)
+            before = list(c._insn)
+            try:
+                interp.call(hc.Contract.decode_instruction, [c, k], {})
+                ctx.oblige("negative-pc-rejected", z3.BoolVal(False), info={"pc": k})
+            except ValueError:
+                ctx.oblige("negative-pc-rejected", z3.BoolVal(True))
+            ctx.oblige("negative-pc-leaves-the-instruction-cache-alone", z3.BoolVal(all(a is b for a, b in zip(before, c._insn)) and len(before) == len(c._insn)), info={"pc": k})
+        elif which == 0:
             ctx.assume(pc.e >= n)
             r = interp.call(hc.Contract.decode_instruction, [c, pc], {})
             ctx.oblige("past-the-end-is-STOP", z3.BoolVal(r is hc.Instruction.STOP and r.opcode == dj.STOP))
@@ -314,7 +324,16 @@ def decode_past_end_cases():
             except ValueError:
                 ctx.oblige("negative-pc-rejected", z3.BoolVal(True))
 
-    out.append(Case(f"{PROP}/contract.Contract.decode_instruction", "pc outside the code", harness, externals={("getitem", list): _list_getitem}, sources=("halmos.contract:Contract.decode_instruction",)))
+    def replay_negative_pc(r):
+        c = hc.Contract(bytes.fromhex("6001600201"))
+        try:
+            i = c.decode_instruction(-1)
+        except ValueError:
+            return {"reproduced": False, "detail": "decode_instruction(-1) raises ValueError"}
+        j = c.decode_instruction(4)
+        return {"reproduced": True, "detail": f"code 6001600201: decode_instruction(-1) returns {i} with pc={i.pc}, next_pc={i.next_pc}; afterwards decode_instruction(4) returns the cached object with pc={j.pc}, next_pc={j.next_pc} (a fresh Contract gives pc=4, next_pc=5)", "inputs": "decode_instruction(-1); decode_instruction(4)"}
+
+    out.append(Case(f"{PROP}/contract.Contract.decode_instruction", "pc outside the code", harness, replay=replay_negative_pc, externals={("getitem", list): _list_getitem}, sources=("halmos.contract:Contract.decode_instruction",)))
     return out
 
 
@@ -915,6 +934,64 @@ def _bounded_decode(tier, seed):
                 if got != want_j:
                     fail(f"{code[:split].hex()}+sym16", f"valid_jumpdests {sorted(got)} != {sorted(want_j)}")
     return {"tool": "native enumeration against specs/dj.py", "bound": f"all byte strings of length <= {maxlen} over {len(alphabet)} opcodes (every decoding class), random strings, every concrete/symbolic split", "cases": cases, "failures": failures}
+
+
+def ground_concrete_valued_bytes():
+    """the scan and the decoder agree on what a concrete byte is: a byte held as a concrete z3 value inside a symbolic chunk is
+    decoded (decode_instruction) and must be scanned alike.  Exhaustive family (evaluated natively): every code of up to 5 bytes over
+    {JUMPDEST, PUSH1, STOP, <symbolic byte>} in two representations (one term; a concrete first chunk followed by one term)"""
+    import itertools
+
+    from halmos.exceptions import NotConcreteError
+
+    SYM = "sym"
+    bad, n = [], 0
+
+    def term(bs, tag):
+        parts = [z3.BitVec(f"s{tag}_{k}", 8) if b is SYM else z3.BitVecVal(b, 8) for k, b in enumerate(bs)]
+        return parts[0] if len(parts) == 1 else z3.Concat(*parts)
+
+    def ref(bs):
+        out, pc = set(), 0
+        while pc < len(bs):
+            b = bs[pc]
+            if b is SYM:
+                break
+            if b == 0x5B:
+                out.add(pc)
+            pc += 2 if b == 0x60 else 1
+        return out
+
+    for ln in range(1, 6):
+        for bs in itertools.product((0x5B, 0x60, 0x00, SYM), repeat=ln):
+            if SYM not in bs:
+                continue
+            reps = [("one term", lambda: hc.Contract(term(bs, "a")))]
+            if bs[0] is not SYM and ln > 1:
+                reps.append(("concrete first byte + one term", lambda: hc.Contract(ByteVec([bytes([bs[0]]), term(bs[1:], "b")]))))
+            for rname, mk in reps:
+                n += 1
+                c = mk()
+                got = set(c.valid_jumpdests())
+                want = ref(bs)
+                # cross-check against the decoder: every position the scan should reach decodes to that opcode
+                dec_ok = True
+                pc = 0
+                while pc < ln and bs[pc] is not SYM:
+                    try:
+                        dec_ok = dec_ok and c.decode_instruction(pc).opcode == bs[pc]
+                    except NotConcreteError:
+                        pass  # a PUSH1 whose operand is symbolic
+                    pc += 2 if bs[pc] == 0x60 else 1
+                if (got != want or not dec_ok) and len(bad) < 3:
+                    bad.append((["sym" if b is SYM else hex(b) for b in bs], rname, sorted(got), sorted(want)))
+    return [(f"valid_jumpdests = JUMPDEST bytes at instruction boundaries up to the first symbolic opcode, on all {n} codes of the family (concrete-valued bytes of symbolic chunks included)", not bad, f"first disagreement (code, representation, got, expected): {str(bad[:1])[:300]}")]
+
+
+def grounds():
+    from pyvc.pack import Ground
+
+    return [Ground(f"{PROP}/contract.Contract.__get_jumpdests#concrete-valued-bytes", ground_concrete_valued_bytes, sources=("halmos.contract:Contract.__get_jumpdests", "halmos.contract:Contract._decode_instruction"))]
 
 
 def bounded():
